@@ -120,20 +120,21 @@ def _hist(plan, start, disk, pos, apif):
 def api_clause(prior_ops, multi_task, had_other):
     """Name the clause from the history that preceded an observation.
 
-    H2: something was evaluated at another frequency before (a compute, a
-        field request or an observation that reads load impedances);
+    H2: the object was at another frequency before (constructed, set,
+        computed or observed there);
     H3: more than one field request (order / repetition / other parameters);
     H4: computed twice, or a report / option list was rendered before;
     H7: nothing of the above in this task, but another task ran before;
     H5: no history at all: a fresh object in a process that only differs in
         its environment (hash assignment, clock, memory layout)."""
     f = 0
-    touched = set()
+    touched = set([0])          # the object was constructed at pool[0]
     ncomp = nfield = nobs = 0
     for o in prior_ops:
         k = o[0]
         if k == 'SET_F':
             f = o[1]
+            touched.add(f)
         else:
             touched.add(f)
             if k == 'COMPUTE':
@@ -237,6 +238,11 @@ def run_world(plan, keep=False):
         kind = op[0]
         sec = rec['sections']
         if t['kind'] == 'api':
+            for name, point in rec.get('held_changed', []):
+                clause = api_clause(prior[ti], len(tasks) > 1, others_ran[ti])
+                viol(clause, rec, 'held.' + name,
+                     'a result object handed out earlier (at point %r) was modified in place by %s' % (point, kind))
+                evaluations += 1
             if sec is not None:
                 if True:
                     point = rec['point']
